@@ -94,7 +94,7 @@ def complex_typed_kinds(g):
 
 NPDT = {"float16": numpy.float16, "float32": numpy.float32, "float64": numpy.float64, "complex64": numpy.complex64, "complex128": numpy.complex128,
         "boolean": numpy.bool_, "boolean1": numpy.bool_, "integer64": numpy.int64, "integer32": numpy.int32, "integer": numpy.int64, "float": numpy.float64,
-        "complex": numpy.complex128, "float128": numpy.longdouble, "complex256": numpy.clongdouble}
+        "complex": numpy.complex128}
 
 
 def np_dtype(t):
